@@ -109,6 +109,7 @@ fn c13_adaptor_zip() {
         std::mem::forget(z);
         std::mem::forget(shared_a);
     }
+    kani::cover!(true, "the end of the harness is reached past every obligation");
 }
 
 // @props C13
@@ -133,6 +134,7 @@ fn c13_adaptor_chain() {
     assert!(num(c.next()).is_none(), "C13.chain: ends when both inputs are exhausted");
     std::mem::forget(c);
     std::mem::forget(shared_b);
+    kani::cover!(true, "the end of the harness is reached past every obligation");
 }
 
 // @props C13
@@ -163,6 +165,7 @@ fn c13_adaptor_reversed() {
     assert!(num(keep.next()) == Some(a[0] as i64), "C13.reversed: reversing copies the iterator, the original is untouched");
     std::mem::forget(r);
     std::mem::forget(keep);
+    kani::cover!(true, "the end of the harness is reached past every obligation");
 }
 
 // @props C13
@@ -180,6 +183,7 @@ fn c13_adaptor_enumerate() {
     assert!(pair(e.next()) == Some((1, a[1] as i64)), "C13.enumerate: index 1");
     assert!(pair(e.next()).is_none(), "C13.enumerate: ends with the source");
     std::mem::forget(e);
+    kani::cover!(true, "the end of the harness is reached past every obligation");
 }
 
 // @props C13
@@ -204,6 +208,7 @@ fn c13_adaptor_step() {
     assert!(num(st.next()) == Some(a[2] as i64), "C13.step: every second element");
     assert!(num(st.next()).is_none(), "C13.step: end");
     std::mem::forget(st);
+    kani::cover!(true, "the end of the harness is reached past every obligation");
 }
 
 // @props C13
@@ -221,6 +226,7 @@ fn c13_adaptor_skip() {
     assert!(num(s.next()) == Some(a[1] as i64), "C13.skip: the first element after the skipped ones");
     assert!(num(s.next()) == Some(a[2] as i64), "C13.skip: then in order");
     std::mem::forget(s);
+    kani::cover!(true, "the end of the harness is reached past every obligation");
 }
 
 // @props C13 C06
